@@ -52,6 +52,11 @@ func runNative(repo, verif string, spec *Spec, hdir string, ps PkgSpec, funcs []
 	for _, f := range ps.Files {
 		ov[filepath.Join(repo, ps.Dir, "zz_verif_"+filepath.Base(f))] = filepath.Join(hdir, f)
 	}
+	for _, m := range strings.Split(os.Getenv("GOSMT_MUTANT"), ",") {
+		if kv := strings.SplitN(m, "=", 2); len(kv) == 2 {
+			ov[filepath.Join(repo, kv[0])] = kv[1]
+		}
+	}
 	var tb strings.Builder
 	fmt.Fprintf(&tb, "package %s\n\nimport \"testing\"\n\nfunc TestZZReplay(t *testing.T) {\n\tzzRunReplay(map[string]func(){\n", ps.Name)
 	sort.Strings(funcs)
@@ -357,7 +362,7 @@ func writeEvidence(spec *Spec, results []*exec.HarnessResult, prop, tier string,
 		solverS += r.Solver.SolveTime.Seconds()
 		vals += validated[r.Spec.Name]
 		for f, pos := range r.Funcs {
-			if !strings.Contains(f, "zzH_") {
+			if !strings.Contains(f, ".zz") {
 				funcs[f] = pos
 			}
 		}
